@@ -30,11 +30,17 @@ fn rand_width(rng: &mut Rng) -> u32 {
 
 /// `id_base` lets a poisoning history reuse the very same ids with other widths.
 pub fn gen_history(rng: &mut Rng, id_base: u32) -> Hist {
-    let mut next = id_base;
-    let mut fresh = || {
-        next += 1;
-        next
-    };
+    gen_history_ids(rng, id_base, None)
+}
+
+/// `scatter`: draw ids from interesting values/ranges (the same seed gives the same id sequence, so a
+/// poisoning history can rebind exactly the same ids).
+pub fn gen_history_ids(rng: &mut Rng, id_base: u32, scatter: Option<u64>) -> Hist {
+    let mut idgen = crate::geninst::Gen::new(id_base + 1);
+    if let Some(s) = scatter {
+        idgen.scatter_ids(s);
+    }
+    let mut fresh = || idgen.fresh();
     let mut model = TypeModel::new();
     let mut types: Vec<u32> = vec![];
     let mut values: Vec<u32> = vec![];
@@ -68,7 +74,10 @@ pub fn gen_history(rng: &mut Rng, id_base: u32) -> Hist {
             5 => {
                 // non-numeric type declarations and other noise that must not influence widths
                 let id = fresh();
-                match rng.below(3) {
+                match rng.below(6) {
+                    3 => AInst::named("FunctionEnd", None, None, vec![]),
+                    4 => AInst::named("Function", Some(types.first().copied().unwrap_or(1)), Some(id), vec![AOp::w(K::FunctionControl, 0), AOp::id(2)]),
+                    5 => AInst::named("Label", None, Some(id), vec![]),
                     0 => AInst::named("TypeBool", None, Some(id), vec![]),
                     1 => AInst::named("TypeVector", None, Some(id), vec![AOp::id(types.first().copied().unwrap_or(1)), AOp::lit(4)]),
                     _ => AInst::named("Name", None, None, vec![AOp::id(id), AOp::s("n")]),
@@ -283,8 +292,14 @@ pub fn run(cfg: &Cfg, rep: &mut Report) {
     let n = cfg.n(120_000, 15_000_000);
     run_stage(cfg, rep, "histories", n, |idx, rng, r| {
         let rp = || crate::util::replay_ref(cfg, "histories", idx);
-        let base = 10;
-        let h = gen_history(rng, base);
+        let scatter = if rng.chance(1, 3) { Some(rng.next()) } else { None };
+        let base = if scatter.is_none() && rng.chance(1, 2) {
+            let l = crate::geninst::interesting_ids();
+            l[rng.below(l.len())].saturating_sub(rng.below(30) as u32).min(u32::MAX - 10_000)
+        } else {
+            10
+        };
+        let h = gen_history_ids(rng, base, scatter);
         if idx < 2 {
             r.sample(Json::obj().set("history", h.insts.iter().take(8).map(|i| Json::from(i.show())).collect::<Vec<_>>()).set("unsupported_at", h.unsupported_at.map(|x| x as i64).unwrap_or(-1)));
         }
@@ -293,7 +308,7 @@ pub fn run(cfg: &Cfg, rep: &mut Report) {
             None => return,
         };
         // poison: another history over the SAME ids, then the original again
-        let poison = gen_history(rng, base);
+        let poison = gen_history_ids(rng, base, scatter);
         let _ = rs::parse_rec(&binary_of(&poison));
         let bytes = binary_of(&h);
         match rs::parse_rec(&bytes) {
@@ -305,6 +320,33 @@ pub fn run(cfg: &Cfg, rep: &mut Report) {
             Err(p) => r.violation("C10:panic".to_string(), p.msg, rp()),
         }
         r.count("isolation_reparses", 1);
+    });
+    // boundary-value histories: hundreds of distinct numeric types before the consumers, consumers in a
+    // later function typed by module-scope values
+    run_stage(cfg, rep, "scale", cfg.n(60, 3000), |idx, rng, r| {
+        let (label, insts) = crate::scale::scale_module(rng, if idx % 2 == 0 { 1 } else { 7 });
+        let mut w = gram::header(0x0001_0600, 0, 1 << 22);
+        for i in &insts {
+            w.extend(i.enc());
+        }
+        let bytes = words_to_bytes(&w);
+        let rp = || crate::util::replay_ref(cfg, "scale", idx).set("label", label.clone());
+        match rs::parse_rec(&bytes) {
+            Err(p) => r.violation("C10:panic".to_string(), format!("{}: parser panicked: {}", label, p.msg), rp()),
+            Ok(p) => {
+                if let Err(e) = &p.result {
+                    r.violation("C10:scale-rejected".to_string(), format!("{}: a history whose literals follow the declared widths is rejected: {:?} after {} of {} instructions", label, e, p.rec.insts.len(), insts.len()), rp());
+                    return;
+                }
+                for (k, (got, want)) in p.rec.insts.iter().zip(insts.iter()).enumerate() {
+                    if Some(got) != want.to_dr().as_ref() {
+                        r.violation(format!("C10:scale-content:{}", want.opname()), format!("{}: instruction #{} delivered as {}, the stream encodes {}", label, k + 1, rs::show_inst(got), want.show()), rp());
+                        return;
+                    }
+                }
+                r.nontrivial(format!("scale:{}", label));
+            }
+        }
     });
     // concurrent isolation: every thread parses an interleaving of shared histories; results per
     // history must be identical across threads (run_stage itself uses all threads)
